@@ -348,7 +348,7 @@ def plan(prop, tier):
         c.post = frontend_threads_post
         return c
     if prop == "C18":
-        c = harness_plan(prop, tier, [("rel", 6, 3000), ("asan", 4, 800)], [("rel", 12, 1000000), ("asan", 8, 150000)], min_eval=1000)
+        c = harness_plan(prop, tier, [("rel", 6, 3000), ("asan", 4, 800)], [("rel", 12, 300000), ("asan", 8, 40000)], min_eval=1000)
         # the exhaustive enumeration runs once per flavour
         done = set()
         for j in c.jobs:
